@@ -47,7 +47,8 @@ COMPONENTS = {
 EXPECTED_PROBES = ["cx_with_index", "cx_without_index", "index_inherited_by_derived_object",
                    "pickle_of_indexed_object", "page_size_1", "omitted_end", "reversed_ends",
                    "whole_page_of_inert_rows", "covered_rows_nonempty", "container_frame",
-                   "container_series", "container_array", "strided_or_reversed_slice"]
+                   "container_series", "container_array", "strided_or_reversed_slice",
+                   "box_end_within_float32_step_of_coordinate"]
 
 PAGES = (1, 2, 3, 5, 8, 512)
 OPS = ("build", "build", "sindex", "slice", "slice_step", "take", "mask", "copy", "concat", "colsubset",
@@ -63,6 +64,13 @@ def cases(tier, base_seed):
         n = rng.choice((0, 1, 2, 5, 9, 14, 24))
         pm, pe = rng.choice(((0.15, 0.1), (0.0, 0.0), (0.5, 0.2)))
         values = gen.gen_values(rng, kind, n, pm, pe, "float64", dup=0.2)
+        subtype = "float64"
+        if kind in ("point", "multipoint") and rng.random() < 0.3:
+            # float32 storage of coordinates that are NOT float32 numbers (decimal tenths):
+            # the stored value lies a rounding step off the decimal a query box names.  Only
+            # for the kinds decided by comparisons alone, where float arithmetic stays exact.
+            subtype = "float32"
+            values = gen.to_tenths(rng, values)
         if n >= 6 and rng.random() < 0.3:
             # a whole run of inert rows (fills an R-tree page for small page sizes)
             a = rng.randrange(n - 3)
@@ -79,8 +87,10 @@ def cases(tier, base_seed):
                           "p": rng.randint(1, 31), "page": rng.choice(PAGES),
                           "box": gen.gen_box(rng), "omit": rng.getrandbits(4) if rng.random() < 0.3
                           else 0, "rev": rng.getrandbits(2) if rng.random() < 0.3 else 0,
-                          "align": rng.random() < 0.3})
-        yield {"seed": seed, "kind": kind, "values": values, "container": container,
+                          "align": rng.random() < 0.3,
+                          "near": rng.getrandbits(10) | 1 if rng.random() < 0.5 else 0})
+        yield {"seed": seed, "kind": kind, "values": values, "subtype": subtype,
+               "container": container,
                "index": index, "extra": [rng.choice("abc") for _ in range(n)], "steps": steps}
         i += 1
 
@@ -109,9 +119,12 @@ class Obj:
         self.container, self.indexed, self.iname = container, indexed, iname
 
 
+_SUBTYPE = ["float64"]      # coordinate subtype of the running case (one run per process)
+
+
 def _make(kind, vals, labels, extra, container, iname):
     from spatialpandas import GeoDataFrame, GeoSeries
-    arr = gen.build_array(kind, vals)
+    arr = gen.build_array(kind, vals, _SUBTYPE[0])
     if container == "array":
         return arr
     idx = pd.Index(labels, name=iname) if len(labels) else pd.Index([], name=iname, dtype="int64")
@@ -138,6 +151,8 @@ def run_case(case):
     done = []
     bad = None
     seed = case["seed"]
+    _SUBTYPE[0] = case.get("subtype", "float64")
+    sig["subtype"] = _SUBTYPE[0]
     sim = e1.new_sim(seed, {"workers": 1, "strategy": "inorder", "switch_p": 0.0})
     with seams.scratch(f"c04-{seed}") as root:
         store, fs = e1.new_store(sim, root, {"atomic_close": False, "refresh": False,
@@ -330,6 +345,15 @@ def _cx(o, st, kind, probes, sig, done):
         # a box sharing an edge with the data extent (touching cases)
         box = [ext[0], ext[1], (ext[0] + ext[2]) / 2, ext[3]] if st["bits"] & 1 else \
             [ext[0] - 2, ext[1] - 2, ext[0], ext[3] + 2]
+    if _SUBTYPE[0] == "float32" and st.get("near") and finite:
+        # box ends that are the decimal tenth next to a stored (float32) coordinate: a hair
+        # below or above it, so the row is in or out by less than one float32 rounding step
+        flat = [c for v in o.vals if v for c in v if c == c]
+        nb = st["near"]
+        vx = round(flat[0::2][(nb >> 1) % len(flat[0::2])], 1)
+        vy = round(flat[1::2][(nb >> 4) % len(flat[1::2])], 1)
+        box = [vx, vy - 3.0, vx + 2.0, vy] if nb & 256 else [vx - 2.0, vy, vx, vy + 3.0]
+        probes["box_end_within_float32_step_of_coordinate"] = 1
     x0, y0, x1, y1 = box
     ends = {"x0": x0, "x1": x1, "y0": y0, "y1": y1}
     omitted = [k for j, k in enumerate(("x0", "x1", "y0", "y1")) if (st["omit"] >> j) & 1]
@@ -463,7 +487,7 @@ def shrink_candidates(case):
         d["index"] = {"kind": "default"}
         yield d
     for i, s in enumerate(c["steps"]):
-        if s["omit"] or s["rev"] or s["align"]:
+        if s["omit"] or s["rev"] or s["align"] or s.get("near"):
             d = copy.deepcopy(c)
-            d["steps"][i].update({"omit": 0, "rev": 0, "align": False})
+            d["steps"][i].update({"omit": 0, "rev": 0, "align": False, "near": 0})
             yield d
